@@ -36,3 +36,30 @@ Example C12_ex_errors_with_data :
                          hc_first_env := {| eo_ok := true; eo_nerrors := 2 |}; hc_whole_env := None;
                          hc_fault := Some 40%nat |}) = OGqlErrors 2.
 Proof. reflexivity. Qed.
+
+(* ---- the generated helper's part (Rt/Helper.v; branches read from operation.go.tmpl) ---- *)
+From Verif Require Import Rt.Helper.
+
+(* the error that occurred (the client's, or the client getter's) is what the helper returns,
+   and nil is returned exactly when nothing failed *)
+Theorem C12_helper_returns_the_error_unchanged :
+  forall c, let o := run_helper c in
+    if (h_getter c && h_getter_fails c) || h_client_fails c
+    then ho_err_is_injected o = true /\ ho_err_nil o = false
+    else ho_err_nil o = true.
+Proof. intros [[] [] []]; vm_compute; auto. Qed.
+Print Assumptions C12_helper_returns_the_error_unchanged.
+
+(* PARTIAL: the response struct is non-nil in every case in which a client was obtainable *)
+Theorem C12_helper_data_nonnil_partial :
+  forall c, h_getter c && h_getter_fails c = false -> ho_data_nonnil (run_helper c) = true.
+Proof. intros [[] [] []] H; try discriminate H; reflexivity. Qed.
+Print Assumptions C12_helper_data_nonnil_partial.
+
+(* REFUTED: "also when it fails before sending (no client obtainable)": the client_getter branch
+   of the template returns before the struct is allocated (known finding
+   C12/helper/nil-data-when-client-getter-fails) *)
+Theorem C12_helper_data_nonnil_refuted :
+  exists c, spec_helper c (run_helper c) = false /\ ho_data_nonnil (run_helper c) = false.
+Proof. exists {| h_getter := true; h_getter_fails := true; h_client_fails := false |}. split; reflexivity. Qed.
+Print Assumptions C12_helper_data_nonnil_refuted.
